@@ -16,12 +16,13 @@ def _native(f):
 
 @_native
 def dynstr(I, B, o):
-    """NUL-terminated string at o, strict UTF-8; '' when empty or unterminated"""
+    """NUL-terminated string at o, decoded as UTF-8 with replacement -- the decoding of the section view's string table
+    (specs/elf.py secname): C09 demands the SAME strings with and without section headers; '' when empty or unterminated"""
     from pyvc.calls import nul_axioms
     arr = B.arr
     o = to_int(o)
     q = nul_axioms(I, arr, o)
-    dec = z3.Function('decode!utf-8!strict', ArrS, IntS, IntS, z3.StringSort())
+    dec = z3.Function('decode!utf-8!replace', ArrS, IntS, IntS, z3.StringSort())
     present = z3.And(q < to_int(B.n), z3.Select(arr, q) == 0, q > o)
     return z3.If(present, dec(arr, z3.If(q - o == 0, z3.IntVal(0), o), q - o), z3.StringVal(''))
 
@@ -31,7 +32,7 @@ def _dynstr_py(B, o):
     e = B.find(b'\x00', o)
     if e < 0 or o > len(B):
         return ''
-    return B[o:e].decode('utf-8')
+    return B[o:e].decode('utf-8', errors='replace')
 
 
 dynstr.py = _dynstr_py
